@@ -42,6 +42,7 @@ type C11Round struct {
 	Bulk   bool      `json:"bulk"`
 	Sleep  bool      `json:"sleep"`   // sleep past the iterator TTL before the write
 	NoWrite bool     `json:"nowrite"` // control round without a write
+	Wild    bool     `json:"wild"`    // the write grants through the typed wildcard of the subject's type
 }
 
 type C11Case struct {
@@ -61,7 +62,10 @@ func genC11(t *rapid.T) C11Case {
 	for i := 0; i < n; i++ {
 		r := gen.RequestFor(t, w, o)
 		r.Contextual = nil
-		c.Rounds = append(c.Rounds, C11Round{Req: r, List: rapid.Bool().Draw(t, "list"), Bulk: rapid.IntRange(0, 4).Draw(t, "bulk") == 0,
+		if i > 0 && rapid.Bool().Draw(t, "sameRequest") {
+			r = c.Rounds[i-1].Req // several changes touching the same subject/object: older ones age out of the TTL window
+		}
+		c.Rounds = append(c.Rounds, C11Round{Req: r, Wild: rapid.IntRange(0, 2).Draw(t, "wild") == 0, List: rapid.Bool().Draw(t, "list"), Bulk: rapid.IntRange(0, 4).Draw(t, "bulk") == 0,
 			Sleep: c.ShortIt && rapid.Bool().Draw(t, "sleep"), NoWrite: rapid.IntRange(0, 5).Draw(t, "nowrite") == 0})
 	}
 	return c
@@ -164,6 +168,12 @@ func checkC11(env *fw.Env, c C11Case) *fw.Failure {
 		}
 		before, _ := semkit.RefCheck(cur, r.Req)
 		g := m.Tuple{Object: r.Req.Object, Relation: r.Req.Relation, User: r.Req.User}
+		if r.Wild && m.UserKind(r.Req.User) == "object" {
+			if wg := (m.Tuple{Object: r.Req.Object, Relation: r.Req.Relation, User: m.UserType(r.Req.User) + ":*"}); refsem.ValidForRead(c.World.Model, wg) == refsem.OK {
+				g = wg
+				classes = append(classes, "wildcard-write")
+			}
+		}
 		idx := -1
 		for j, tu := range cur.Tuples {
 			if tu.Key() == g.Key() {
